@@ -502,6 +502,59 @@ observe_opt_layout(void) {
 		printf("NOTE\toptrr_ttl_first_octet_is_%s\n", (0x22 == buf[12 + 5]) ? "extended_rcode(rfc6891)" : ((0x11 == buf[12 + 5]) ? "version(swapped_vs_rfc6891)" : "other"));
 }
 
+/* "all sequences of add operations until the buffer is full", the long ones: one section is filled with the same
+ * entry until a large buffer is full (several hundred entries: every counter passes 255 -> 256 and 511 -> 512); the three
+ * other sections get one entry each where section order allows.  After every add the 16-bit counter in the header is read
+ * as RFC 1035 lays it out (two octets, high first); at the end the message is validated and walked entry by entry. */
+static void
+long_fill_case(int op_main, size_t n_want) {
+	const op_t *p = &ops[op_main]; size_t cap = 12 + p->need * n_want + 300 + 7, msg_size = 0, out, n = 0, off, i, nq, nr; int rc, bad = 0;
+	uint8_t *buf; dns_hdr_p hdr; size_t qd = 0, an = 0, ns = 0, ar = 0, rrc = 0, sz = 0;
+	if (!vh_begin("dns_msg_fill_section")) return;
+	vh_desc("%s repeated until %zu bytes are full (about %zu entries)", p->label, cap, n_want);
+	buf = (uint8_t *)malloc(cap); memset(buf, 0xA5, cap); hdr = (dns_hdr_p)buf;
+	if (0 != dns_hdr_create(hdr_id_value(), hdr_flags_value(), hdr, cap, &msg_size)) { vh_fail("dns_hdr_create:rc", "cap=%zu", cap); free(buf); return; }
+	if (K_Q != p->kind) {	/* one question first, as every real message has */
+		const op_t *q = &ops[0]; out = 0;
+		if (0 == dns_msg_question_add(hdr, msg_size, cap, 0, q->name->text, q->name->tlen, q->type, q->class, &out)) msg_size = out;
+	}
+	for (;;) {
+		out = (size_t)-7;
+		if (K_Q == p->kind) rc = dns_msg_question_add(hdr, msg_size, cap, 0, p->name->text, p->name->tlen, p->type, p->class, &out);
+		else rc = dns_msg_rr_add(hdr, msg_size, cap, 0, p->name->text, p->name->tlen, p->type, p->class, p->ttl, p->rdlen, (void *)p->rdata, &out);
+		if (0 != rc) break;
+		if (K_Q != p->kind) { if (S_AN == p->sect) dns_hdr_an_inc(hdr, 1); else if (S_NS == p->sect) dns_hdr_ns_inc(hdr, 1); else dns_hdr_ar_inc(hdr, 1); }
+		n ++; msg_size += p->need;
+		{ size_t cnt_off = 4 + 2 * (size_t)p->sect, got = ((size_t)buf[cnt_off] << 8) | buf[cnt_off + 1], want = n + ((K_Q == p->kind) ? 0 : 0);
+		  if (got != want) { vh_fail("fill:rfc1035-counter", "after add #%zu the %s count octets read %zu", n, (0 == p->sect) ? "QD" : (1 == p->sect) ? "AN" : (2 == p->sect) ? "NS" : "AR", got); bad = 1; break; } }
+		if (msg_size > cap) { vh_fail("fill:success-beyond-capacity", "add #%zu accepted, message would be %zu bytes of %zu", n, msg_size, cap); bad = 1; break; }
+		if (n > 70000) break;
+	}
+	if (!bad) {
+		if (msg_size + p->need <= cap) vh_fail("fill:refused-though-fitting", "add #%zu refused rc=%d with %zu bytes free, entry needs %zu", n + 1, rc, cap - msg_size, p->need);
+		if (n < 520) vh_fail("harness", "only %zu entries fitted", n);
+		rc = dns_msg_validate(hdr, msg_size);
+		if (0 != rc) { vh_fail("fill:validate", "dns_msg_validate rc=%d on a message of %zu entries the builder returned", rc, n); bad = 1; }
+	}
+	if (!bad) {
+		rc = dns_msg_info_get(hdr, msg_size, &qd, &an, &ns, &ar, &rrc, &sz);
+		nq = (K_Q == p->kind) ? n : 1; nr = (K_Q == p->kind) ? 0 : n;
+		if (0 != rc || sz != msg_size || rrc != nr) { vh_fail("fill:info", "dns_msg_info_get rc=%d size %zu (message %zu) rr count %zu (added %zu)", rc, sz, msg_size, rrc, nr); bad = 1; }
+		off = 12;
+		for (i = 0; i < nq + nr && !bad; i ++) {
+			const op_t *e = (i < nq) ? ((K_Q == p->kind) ? p : &ops[0]) : p;
+			uint8_t nb[300]; size_t nl = sizeof(nb), esz = 0; uint16_t t = 0, c = 0, ds = 0; uint32_t ttl = 0; void *dp = NULL;
+			if (K_Q == e->kind) rc = dns_msg_question_get_data(hdr, msg_size, off, nb, &nl, &t, &c, &esz);
+			else rc = dns_msg_rr_get_data(hdr, msg_size, off, nb, &nl, &t, &c, &ttl, &ds, &dp, &esz);
+			if (0 != rc || t != e->type || c != e->class || esz != e->need || nl != e->name->tlen || 0 != memcmp(nb, e->name->text, nl)) {
+				vh_fail("fill:parse-back", "entry #%zu at offset %zu: rc=%d type/class %u/%u size %zu", i, off, rc, t, c, esz); bad = 1; }
+			off += e->need;
+		}
+	}
+	if (!bad) vh_nontrivial();
+	free(buf);
+}
+
 int
 main(int argc, char **argv) {
 	int seq[5];
@@ -512,6 +565,7 @@ main(int argc, char **argv) {
 	vh_set_describer(desc_seq);
 	seq_rec(seq, 0, vh_thorough ? 5 : 3, sizeof(dns_hdr_t));
 	vh_set_describer(NULL);
+	{ int o; for (o = 0; o < nops; o ++) if (K_OPT != ops[o].kind && ops[o].need < 64) long_fill_case(o, vh_thorough ? 3000 : 600); }
 	if (0 == vh_shard && NULL == vh_only_target) observe_opt_layout();
 	st_dump(argv[0], "dns");
 	printf("NOTE\tdns_transitions=%llu\n", (unsigned long long)n_transitions);
